@@ -712,6 +712,64 @@ def encfallback(run, p):
                'fallback read with %r %s' % (enc, 'records the encoding before returning' if verdict else
                                              'returns without recording the encoding: the generated test will name the original guess'),
                fn=f, node=w)
+    # the guess itself is made from the whole file: the loop that feeds the detector runs over the opened file (not a slice or a
+    # sample of it) and stops early only when the detector says it is done
+    nfeed = 0
+    for g in p.funcs.values():
+        if g.mod.name != 'tdda.referencetest.utils':
+            continue
+        opened = set()
+        for x in p.own_nodes(g):
+            if isinstance(x, ast.With):
+                for it in x.items:
+                    if isinstance(it.context_expr, ast.Call) and getattr(it.context_expr.func, 'id', '') == 'open' and isinstance(it.optional_vars, ast.Name):
+                        opened.add(it.optional_vars.id)
+            if isinstance(x, ast.Assign) and isinstance(x.value, ast.Call) and getattr(x.value.func, 'id', '') == 'open':
+                opened |= {t.id for t in x.targets if isinstance(t, ast.Name)}
+        for lp in p.own_nodes(g):
+            if not isinstance(lp, (ast.For, ast.While)):
+                continue
+            feeds = [x for st in lp.body for x in ast.walk(st) if isinstance(x, ast.Call) and isinstance(x.func, ast.Attribute) and x.func.attr == 'feed']
+            if not feeds:
+                continue
+            nfeed += 1
+            det = norm(feeds[0].func.value)
+            def _file(e):
+                return (isinstance(e, ast.Call) and getattr(e.func, 'id', '') == 'open') or (isinstance(e, ast.Name) and e.id in opened)
+
+            def _all_of(e):
+                # the file, iter(file), file.readlines(), file.read().splitlines(...)
+                if _file(e):
+                    return True
+                if isinstance(e, ast.Call) and getattr(e.func, 'id', '') in ('iter', 'enumerate') and len(e.args) == 1 and not e.keywords:
+                    return _all_of(e.args[0])
+                if isinstance(e, ast.Call) and isinstance(e.func, ast.Attribute) and e.func.attr == 'readlines' and not e.args:
+                    return _file(e.func.value)
+                if isinstance(e, ast.Call) and isinstance(e.func, ast.Attribute) and e.func.attr in ('splitlines', 'split'):
+                    r_ = e.func.value
+                    return isinstance(r_, ast.Call) and isinstance(r_.func, ast.Attribute) and r_.func.attr == 'read' and not r_.args and _file(r_.func.value)
+                return False
+            whole = isinstance(lp, ast.For) and _all_of(lp.iter)
+            if isinstance(lp, ast.For) and not whole:
+                # a truncation is named as such; any other iterable is not understood
+                cut = any((isinstance(x, ast.Call) and (getattr(x.func, 'id', '') or getattr(x.func, 'attr', '')) in ('islice', 'zip', 'range', 'head', 'takewhile'))
+                          or isinstance(x, ast.Slice) or (isinstance(x, ast.Call) and isinstance(x.func, ast.Attribute) and x.func.attr in ('read', 'readlines') and x.args)
+                          for x in ast.walk(lp.iter))
+                if not cut:
+                    raise AnalysisError('the loop feeding the detector in %s runs over %s, which is not understood' % (g.short, norm(lp.iter)[:60]))
+            early = []
+            for st in lp.body:
+                if isinstance(st, ast.If) and norm(st.test) == '%s.done' % det and not st.orelse and all(isinstance(b, ast.Break) for b in st.body):
+                    continue
+                early += [x for x in ast.walk(st) if isinstance(x, (ast.Break, ast.Return))]
+            ok = whole and not early
+            run.ob('C11-ENCODING', '%s::%s::detector-sees-the-whole-file' % (g.rel, g.short), ok,
+                   'the loop feeding %s in %s %s' % (det, g.short, 'runs over the opened file and stops early only on %s.done' % det if ok else
+                                                      ('runs over `%s`, not the opened file itself: bytes beyond it are never seen and the encoding written into the '
+                                                       'test may not decode the file' % norm(lp.iter if isinstance(lp, ast.For) else lp.test)[:60] if not whole else
+                                                       'can stop before the end of the file for another reason than %s.done' % det)), fn=g, node=lp)
+    if not nfeed:
+        raise AnalysisError('no loop feeding a chardet detector found in tdda.referencetest.utils')
     ws = p.method('TestGenerator', 'write_script')
     from . import gentest_script
     try:
